@@ -434,6 +434,7 @@ func Run(r *fw.Run) {
 		r.Violation("resource:handles-peak", fmt.Sprintf("up to %d file handles were open at once with 16 workers: Create keeps files open", p), nil)
 	}
 	overlapPart(r, "")
+	destinationPart(r, "")
 	r.Sample(caseT{Paths: q([]string{"go.mod", "sub/x.go", "vendor/p/x.go"}), Modes: []int{0, 0, 0}, GoMod: strconv.QuoteToASCII(zipx.GoMods[2]), ModPath: "example.com/m/v2", Version: "v2.0.0", Size: "honest"})
 	_ = strings.Join
 }
@@ -504,6 +505,83 @@ func overlapMenu() (names []string, calls []func(yield func()) string) {
 	return
 }
 
+// cutWriter accepts room bytes and then fails: in "whole" mode a write that does not fit is refused as a
+// whole, in "short" mode it takes what fits and reports the rest as failed.
+type cutWriter struct {
+	room  int
+	short bool
+	got   []byte
+}
+
+func (w *cutWriter) Write(p []byte) (int, error) {
+	if len(p) <= w.room {
+		w.room -= len(p)
+		w.got = append(w.got, p...)
+		return len(p), nil
+	}
+	n := 0
+	if w.short {
+		n = w.room
+		w.got = append(w.got, p[:n]...)
+	}
+	w.room = 0
+	return n, fmt.Errorf("injected: no space left on device")
+}
+
+// destinationPart: Create writing to a destination that runs out of room after every number of bytes below
+// the size of the archive (both ways of failing). A nil result means the archive is complete: it must then be
+// byte for byte what a healthy destination receives. only (replay) = "<list>:<room>:<short>".
+func destinationPart(r *fw.Run, only string) {
+	type lst struct {
+		name, mod, ver string
+		files          []memfile.File
+	}
+	gm := "module example.com/m\n"
+	lists := []lst{
+		{"two-files", "example.com/m", "v1.0.0", []memfile.File{memfile.Reg("go.mod", gm), memfile.Reg("a.go", "package a\n")}},
+		{"empty-last-file", "example.com/m", "v1.0.0", []memfile.File{memfile.Reg("go.mod", gm), memfile.Reg("z/empty", "")}},
+		{"compressible", "example.com/m/v2", "v2.1.0", []memfile.File{memfile.Reg("go.mod", "module example.com/m/v2\n"), memfile.Reg("data.txt", strings.Repeat("0123456789abcdef", 400)), memfile.Reg("LICENSE", "text")}},
+		{"no-files", "example.com/m", "v1.0.0", nil},
+	}
+	if only == "" {
+		r.Bounds["failing_destination"] = fmt.Sprintf("%d file lists x every number of bytes accepted below the archive size x {write refused whole, short write}", len(lists))
+	}
+	l := fw.NewLocal()
+	defer r.Merge(l)
+	for _, li := range lists {
+		var zf []modzip.File
+		for _, f := range li.files {
+			zf = append(zf, f)
+		}
+		m := module.Version{Path: li.mod, Version: li.ver}
+		var full bytes.Buffer
+		if err := modzip.Create(&full, m, zf); err != nil {
+			r.Violation("destination:"+li.name, "Create on a healthy destination failed: "+err.Error(), caseT{Size: "destination", ModPath: li.name})
+			continue
+		}
+		for room := 0; room < full.Len(); room++ {
+			for _, short := range []bool{false, true} {
+				key := fmt.Sprintf("%s:%d:%v", li.name, room, short)
+				if only != "" && only != key {
+					continue
+				}
+				l.States++
+				l.Execs++
+				l.Transitions++
+				l.Nontrivial++
+				w := &cutWriter{room: room, short: short}
+				err := modzip.Create(w, m, zf)
+				if err == nil && !bytes.Equal(w.got, full.Bytes()) {
+					r.Violation("destination:"+key, fmt.Sprintf("Create returned nil although the destination accepted only %d of the archive's %d bytes (list %s, %s): what was written is not the archive", len(w.got), full.Len(), li.name, map[bool]string{false: "writes refused whole", true: "short writes"}[short]), caseT{Size: "destination", ModPath: key})
+					l.Outcomes["destination:VIOLATION"]++
+				} else {
+					l.Outcomes["destination:error-reported"]++
+				}
+			}
+		}
+	}
+}
+
 // overlapPart explores every interleaving (at File.Open and each file's first Read) of every ordered pair of
 // Create calls and compares each archive with the one the call produces alone. only (replay) = "a|b".
 func overlapPart(r *fw.Run, only string) {
@@ -545,6 +623,12 @@ func Replay(r *fw.Run, raw json.RawMessage) {
 		return
 	}
 	allSpellings.Store(true)
+	if c.Size == "destination" {
+		r.States.Add(1)
+		r.Sample(c)
+		destinationPart(r, c.ModPath)
+		return
+	}
 	if c.Size == "overlap" {
 		r.States.Add(1)
 		r.Sample(c)
